@@ -9,10 +9,36 @@ from ..backend import make_backend
 TYPE = {"value": "value_placeholders", "wildcard": "wildcard_placeholders", "qexpr": "query_expression_placeholders"}
 
 
+def _values_file(case, name):
+    """The values of one variable as a text file, one per line (written once per process and content)."""
+    import hashlib, os, tempfile
+
+    vals = [plain_value(v) for n, vs in case["vars"] if uncps(n) == name for v in vs]
+    text = "".join(str(v) + "\n" for v in vals)
+    p = os.path.join(tempfile.gettempdir(), "verif_c17_" + hashlib.sha256(text.encode()).hexdigest()[:12] + ".txt")
+    if not os.path.exists(p):
+        with open(p + f".{os.getpid()}", "w") as f:
+            f.write(text)
+        os.replace(p + f".{os.getpid()}", p)
+    return p
+
+
+def _via_file(case, it):
+    """Equivalent route: a value list item that handles exactly one placeholder, whose variable holds texts / whole
+    numbers (or nothing), written as a file_placeholders item reading the same values from a file - in every other case."""
+    if it["type"] != "value" or it["mode"] != "include" or len(it["names"]) != 1 or (case["id"] * 2654435761 >> 13) % 2 == 0:
+        return False
+    name = uncps(it["names"][0])
+    tables = [vs for n, vs in case["vars"] if uncps(n) == name]
+    return len(tables) == 1 and all(v["t"] in ("s", "n") and (v["t"] != "n" or v["num"][1] == 1) for v in tables[0])
+
+
 def pipeline_dict(case):
     items = []
     for it in case["pipe"]:
         d = {"type": TYPE[it["type"]]}
+        if _via_file(case, it):
+            d = {"type": "file_placeholders", "path": _values_file(case, uncps(it["names"][0]))}
         if it["mode"] != "all":
             d[it["mode"]] = [uncps(n) for n in it["names"]]
         if it["type"] == "qexpr":
@@ -35,7 +61,7 @@ def drive_case(case):
     from sigma.processing.pipeline import ProcessingPipeline
 
     def conv():
-        b = make_backend(K_of(case), ProcessingPipeline.from_dict(pipeline_dict(case)))
+        b = make_backend(K_of(case), ProcessingPipeline.from_dict(pipeline_dict(case), allow_external_sources=True))
         return [cps(q) for q in convert_via(rule_dict(case["doc"]), b, case["id"])]
 
     ret = outcome(conv)
